@@ -73,7 +73,7 @@ Adv(src, c) ==
 Slice(src, a, b) == SubSeq(src, a + 1, b)   \* bytes at offsets a .. b-1
 
 RECURSIVE TrimRightSp(_)
-TrimRightSp(s) == IF s # <<>> /\ s[Len(s)] = 32 THEN TrimRightSp(SubSeq(s, 1, Len(s) - 1)) ELSE s
+TrimRightSp(s) == IF s # <<>> /\ s[Len(s)] \in {32, 13} THEN TrimRightSp(SubSeq(s, 1, Len(s) - 1)) ELSE s   \* strings.TrimRight(.., " \r")
 
 ---------------------------------------------------------------------------
 (* readLeadingComments: returns <<cursor, hadNewlineBefore, leadingComments>> *)
